@@ -14,6 +14,10 @@ ALGOS = ["priority", "priority", "priority-pool"]
 
 
 def make(family, rng, tier):
+    if family == "preempt":
+        scn = sysgen.gen_preempt(rng, tier, offgrid=rng.random() < 0.5)
+        scn["oracles"] = ORACLES
+        return scn
     if family == "gen":
         scn = sysgen.gen_generated(rng, rng.choice(ALGOS) if ALGOS else None, tier)
     else:
@@ -23,4 +27,8 @@ def make(family, rng, tier):
 
 
 def plan(tier):
-    return [("sys", 6000 if tier == "quick" else 100000)]
+    q = tier == "quick"
+    return [("sys", 4000 if q else 80000), ("preempt", 2500 if q else 50000)]
+
+
+WANT_PROBES = ["priority_suspension", "retry_assigned", "retry_abandoned"]
